@@ -6,7 +6,9 @@ protocol (one output line per input line; all texts are hex strings of their UTF
 
 `cfg level=20 n=2 r0=30/1/0/0/612e62/L783d;F2b303564;L2073 r1=40/1/1/1/61/N` → `ok`
    per record: level / namespace-regexp matches / registered by a top_* function / is an assertion /
-   logger name / chunks (`L<text>` literal, `F<spec>` format chunk, `N` = no chunks).
+   logger name / chunks (`L<text>` literal, `F<spec>` format chunk, `N` = no chunks); optional `py=1011`:
+   per record whether Python's logging configuration lets its messages through (only what is printed
+   in `m=` is filtered by it; `err`/`dead` come from the model unfiltered).
 `cyc r0=11/1/3,26984 r1=N/0/N tab=2b303564:i3:2b30303033,…` → `m=0.30.612e62.783d2b30303033… err=0`
    per record: enclosing conditions (bits, `N` = none) / value of the trigger (asserted) expression /
    sampled field values; `tab` is Python's `format(value, spec)` for the (spec, value) pairs of this
@@ -23,6 +25,7 @@ structure TabEntry where
 structure St where
   level : Nat := 0
   recs : List Rec := []
+  py : List Bool := []   -- per record: Python's logging lets its messages through (display filter only)
   cycle : Nat := 0
   dead : Bool := false   -- `run` has returned a failing cycle: the simulation is over
 
@@ -112,7 +115,11 @@ def stepLine (s : St) (line : String) : St × String :=
     match nat? t "level", nat? t "n" with
     | some l, some n =>
       match allSome ((List.range n).map (parseRec t)) with
-      | some recs => ({ level := l, recs := recs }, "ok")
+      | some recs =>
+        let py := match kv? t "py" with
+          | some b => b.toList.map (· == '1')
+          | none => recs.map fun _ => true
+        if py.length == recs.length then ({ level := l, recs := recs, py := py }, "ok") else (s, "bad-op")
       | none => (s, "bad-op")
     | _, _ => (s, "bad-op")
   | some "cyc" =>
@@ -122,8 +129,10 @@ def stepLine (s : St) (line : String) : St × String :=
       -- one more cycle of the process: `run` on the one-cycle remainder of the trace
       let res := run (renderOf tab) s.level s.recs s.cycle [ins]
       match res.1 with
-      | [ms] =>
+      | [ms0] =>
         let err := res.2 == some s.cycle
+        -- Python-side filtering (`logging.disable`, logger levels) drops messages, nothing else
+        let ms := ms0.filter fun m => s.py[m.idx]?.getD true
         ({ s with cycle := s.cycle + 1, dead := err },
           s!"m={if ms.isEmpty then "-" else ";".intercalate (ms.map showMsg)} err={if err then "1" else "0"}")
       | _ => (s, "bad-op")
